@@ -730,8 +730,8 @@ void chunkqueue_use_memory(chunkqueue * const restrict cq, chunk *ckpt, size_t l
 
         buffer_append_string_buffer(ckpt->mem, b);
     }
-    else if (!buffer_is_blank(b)) { /*(cq->last == ckpt)*/
-        return; /* last chunk is not empty */
+    else if (cq->last == ckpt || !buffer_is_blank(b)) {
+        return; /* no chunk was added, or last chunk is not empty */
     }
 
     /* remove empty last chunk */
